@@ -237,6 +237,8 @@ def alias_child(job):
     exec("from __future__ import annotations\nimport typing, datetime\ntype A = dict[str, A | int]\ntype L = list[L] | int\n"
          "type O = dict[str, O] | None\n"
          "type TD = list[TD] | datetime.date\ntype DD = dict[str, DD] | datetime.date\ntype ND = tuple[ND, ...] | datetime.date\n"
+         # aliases which ARE a collection of themselves (every member is the alias again)
+         "type PL = list[PL]\ntype PT = tuple[PT, ...]\ntype PD = dict[str, PD]\nPS = typing.TypeAliasType('PS', 'list[PS]')\n"
          "type Rows = list[Cell] | None\ntype Cell = dict[str, Rows] | datetime.date\n"
          "class Item(typing.TypedDict):\n    day: datetime.date\n    parts: list[Item]\n"
          # a container-like class: an instance without children is FALSY, and is an instance to convert all the same
@@ -306,6 +308,29 @@ def alias_child(job):
                 ok = why is None and m_ == wire and back == val
                 out.append({"alias": name, "depth": depth, "ok": bool(ok),
                             "got": (f"a level was marshalled raw ({why}): " if why else "") + repr(m_)[:120] + " / " + repr(back)[:80]})
+            except Exception as e:  # noqa: BLE001
+                out.append({"alias": name, "depth": depth, "ok": False, "got": f"{type(e).__name__}: {e}"[:160]})
+            continue
+        if name in ("PL", "PT", "PD", "PS"):
+            empty = {"PL": [], "PT": (), "PD": {}, "PS": []}[name]
+            val, wire = empty, ({} if name == "PD" else [])
+            try:
+                ok, got = True, ""
+                # (every depth from the shallowest on, through fresh calls: the first calls of a routine are calls like the others)
+                for i in range(depth + 1):
+                    m_ = typelib.marshal(val, t=t)
+                    back = typelib.unmarshal(t, wire)
+                    enc_ = typelib.codec(t).decode(typelib.codec(t).encode(val))
+                    if m_ != wire or back != val or type(back) is not type(val) or enc_ != val:
+                        ok, got = False, f"at depth {i}: " + repr(m_)[:100] + " / " + repr(back)[:80]
+                        break
+                    if name == "PD":
+                        val, wire = {"k": val, "e": {}}, {"k": wire, "e": {}}
+                    elif name == "PT":
+                        val, wire = (val, ()), [wire, []]
+                    else:
+                        val, wire = [val, []], [wire, []]
+                out.append({"alias": name, "depth": depth, "ok": ok, "got": got})
             except Exception as e:  # noqa: BLE001
                 out.append({"alias": name, "depth": depth, "ok": False, "got": f"{type(e).__name__}: {e}"[:160]})
             continue
@@ -417,7 +442,7 @@ def explore(ctx):
                 res.count("oracle:roundtrip-every-level")
     # recursive aliases
     core.import_typelib()
-    ajobs = [[(name, d) for d in depths] for name in ("A", "L", "O", "TD", "DD", "ND", "Rows", "Item", "Tree", "TypingMod")]
+    ajobs = [[(name, d) for d in depths] for name in ("A", "L", "O", "TD", "DD", "ND", "Rows", "Item", "Tree", "TypingMod", "PL", "PT", "PD", "PS")]
     for out in iso.map_isolated(alias_child, ajobs, timeout=120):
         if isinstance(out, dict) and "crash" in out:
             res.failures.append({"what": f"recursive alias: {out['crash']}", "input": {"alias": "?"}})
